@@ -278,11 +278,16 @@ class Prop(object):
         dist[case["op"]] = dist.get(case["op"], 0) + 1
 
 
-def shrink(prop, case, fails):
-    """greedy minimisation: keep replacing the case by a smaller candidate that still fails"""
+def shrink(prop, case, fails, budget_s=20.0):
+    """greedy minimisation: keep replacing the case by a smaller candidate that still fails (time-boxed)"""
     cur = case
+    deadline = time.time() + budget_s
     for _ in range(200):
+        if time.time() > deadline:
+            break
         for cand in prop.shrink_candidates(cur):
+            if time.time() > deadline:
+                break
             try:
                 if fails(cand):
                     cur = cand
@@ -468,7 +473,7 @@ def _check(prop, tier, seed, t0):
             continue
         reported.add(sig)
         case = f.get("case")
-        if case is not None and prop.shrink_candidates(case):
+        if case is not None and len(reported) <= 2 and prop.shrink_candidates(case):
             def still_fails(c):
                 r = prop.real(c)
                 o = prop.oracle(c, r)
